@@ -46,16 +46,26 @@ def configs(tier):
   four.append(('queue', dict(prods=[1, 1, 1], cap=1, cons=['get'],
                              mode='delay')))
   if tier == 'quick':
-    return [('2 threads, preemption bound 2', 2, two),
-            ('3 threads, preemption bound 1', 1, three),
+    deep = [c for c in two if c[1]['cons'][0] in ('get', ['bbatch', 2],
+                                                  ['bbatch', 3])
+            and c[1]['prods'] == [2] and c[1].get('declared', True)
+            and c[1]['cap'] < 2]
+    shallow = [c for c in two if c not in deep]
+    three_q = [c for c in three if c[1]['cap'] == 1 and (
+        c[1]['cons'] in (['get'], [['bbatch', 2]], ['get', 'get'],
+                         ['get', ['bbatch', 2]]))]
+    three_q.append(('queue', dict(prods=[2], cap=0, cons=['get', 'get'])))
+    return [('2 threads, preemption bound 2', 2, deep),
+            ('2 threads (remaining consumer modes), preemption bound 1', 1, shallow),
+            ('3 threads, preemption bound 1', 1, three_q),
             ('4 threads, delay bound 1', 1, four)]
   # thorough: deeper bounds, 3 items, capacity 2
-  two_t = list(two)
+  two_t = []
   for cap in (0, 1, 2):
     for m in ('get', ['batch', 0], ['bbatch', 2], 'iter'):
       two_t.append(('queue', dict(prods=[3], cap=cap, cons=[m])))
   return [('2 threads, preemption bound 3', 3, two),
-          ('2 threads / 3 items, preemption bound 2', 2, two_t[len(two):]),
+          ('2 threads / 3 items, preemption bound 2', 2, two_t),
           ('3 threads, preemption bound 2', 2, three),
           ('4 threads, delay bound 2', 2, four)]
 
@@ -75,8 +85,10 @@ def run(ctx):
       'with max_enqueuer undeclared only single-producer configurations are in scope',
   ]
   for label, bound, cfgs in groups:
-    explorer.explore_all(ctx, MODULE, cfgs, pre_bound=bound, split=24)
+    explorer.explore_all(ctx, MODULE, cfgs, pre_bound=bound, split=24,
+                         hb_cache=True)
   ctx.notes['bounds'] = [[label, len(cfgs)] for label, _, cfgs in groups]
+  ctx.notes['hb_cache'] = True
   ctx.sample({'harness': 'queue', 'params': groups[0][2][0][1],
               'schedule': 'every choice sequence within the bound'})
 
